@@ -220,7 +220,7 @@ def mk(prop, gens, nq, nt, proj, oracle, theorems, **kw):
 # another corner (after an abort, under a failing checker, in a bottom-up build, ...) is still seen by this property.
 S = dict(
     td=GB.case_td, tdx=lambda r: (GB.case_td(r, exact=True), dict(exact=True)), bu=GB.case_bu, bud=GB.case_bu_dense, buc=GB.case_bu_chain, buw=GB.case_bu_wide, tdr=GB.case_td_relay, bur=GB.case_bu_relay,
-    pan=GB.case_panic, pano=GB.case_panic_only, panr=GB.case_panic_recover, ssr=GB.case_same_session_retry, panrtd=lambda r: GB.case_panic_recover(r, bu_prob=0.0), fail=GB.case_failing_checker, buf=GB.case_bu_fail, hid=GB.case_hidden, hidp=GB.case_hidden_polluted,
+    pan=GB.case_panic, pano=GB.case_panic_only, panr=GB.case_panic_recover, ssr=GB.case_same_session_retry, awr=GB.case_aborted_writer, panrtd=lambda r: GB.case_panic_recover(r, bu_prob=0.0), fail=GB.case_failing_checker, buf=GB.case_bu_fail, hid=GB.case_hidden, hidp=GB.case_hidden_polluted,
     ovl=GB.case_overlap, cyc=GB.case_cycle, rol=GB.case_roles, ero=GB.case_erosion, k1=GB.case_partial_td_then_bu,
     k2=GB.case_multichecker,
     # top-down-only histories (C01's quantifier: sessions of requires interleaved with external changes)
@@ -257,15 +257,15 @@ PROPS.update({
     "C03": mk("C03", st(bu=4, bud=3, buc=3, buf=2, k1=1, bur=1, buw=1), 3000, 30000,
               proj_lines(("op ", "ev execute_", "ev schedule_task", "out ", "abort ", "done", "fs ", "cl ", "known ", "bad-op")), OB.c03, [],
               proj_name="C03: executions, scheduling, outputs, contents", known_match=known_if_model_agrees("K1", OB.c03, pat_partial_topdown_before_bu), exhaustive=True),
-    "C04": mk("C04", st(bu=3, bud=3, buc=2, buf=1, pan=1, panr=1, rol=1, ero=1, hid=1, ovl=1, bur=1, buw=3), 3000, 30000,
+    "C04": mk("C04", st(bu=3, bud=3, buc=2, buf=1, pan=1, panr=1, rol=1, ero=1, hid=1, ovl=1, bur=1, buw=3, awr=1), 3000, 30000,
               proj_lines(("op ", "ev execute_", "ev schedule_", "ev check_task_re", "out ", "abort ", "done", "bad-op")), OB.c04, [],
               proj_name="C04: order of execute_start/end, schedule and scheduling-check events", known_match=known_if_model_agrees("K7", OB.c04, pat_after_abort), exhaustive=True),
-    "C05": mk("C05", st(hid=4, hidp=1, ero=2, td=1, bu=1, bud=1, pan=1, panr=1, ovl=1, rol=1, tdr=1, bur=1, ssr=1, buw=1), 3000, 30000,
+    "C05": mk("C05", st(hid=4, hidp=1, ero=2, td=1, bu=1, bud=1, pan=1, panr=1, ovl=1, rol=1, tdr=1, bur=1, ssr=1, buw=1, awr=1), 3000, 30000,
               proj_lines(("op ", "out ", "abort ", "done", "skipped", "fs ", "st ", "bad-op")),
               lambda c, io: OB.dump_invariants(c, io, "C05") + OB.abort_content(c, io), [],
               proj_name="C05: abort kinds, contents at abort, store dump",
               known_match=known_if_model_agrees("K4", lambda c, io: OB.dump_invariants(c, io, "C05"))),
-    "C06": mk("C06", st(ovl=4, td=1, bu=1, bud=1, hid=1, pan=1, panr=1, rol=1, ero=1, tdr=1, ssr=1, fail=1, buf=1), 3000, 30000,
+    "C06": mk("C06", st(ovl=4, td=1, bu=1, bud=1, hid=1, pan=1, panr=1, rol=1, ero=1, tdr=1, ssr=1, fail=1, buf=1, awr=1), 3000, 30000,
               proj_lines(("op ", "out ", "abort ", "done", "skipped", "fs ", "st ", "bad-op")),
               lambda c, io: OB.dump_invariants(c, io, "C06") + OB.abort_content(c, io) + (
                   [f"well-formed program aborted: {l}" for l in io if l == "abort overlap"] if (c.meta.get("stream") in WELLFORMED_STREAMS or c.meta.get("no_abort_expected")) else []), [],
@@ -273,13 +273,13 @@ PROPS.update({
     "C07": mk("C07", st(cyc=4, pan=1, panr=1, rol=1, td=1, bu=1, bud=1, tdr=1, ssr=1), 3000, 30000,
               proj_lines(("op ", "out ", "abort ", "done", "skipped", "tl ", "st ", "bad-op")), OB.c07, [],
               proj_name="C07: abort kinds, task-side log, store dump"),
-    "C08": mk("C08", st(td=3, bu=2, bud=2, buc=1, pan=2, panr=1, k2=2, fail=1, hid=1, ovl=1, cyc=1, rol=1, ero=1, tdr=1, bur=1, ssr=1), 3000, 30000,
+    "C08": mk("C08", st(td=3, bu=2, bud=2, buc=1, pan=2, panr=1, k2=2, fail=1, hid=1, ovl=1, cyc=1, rol=1, ero=1, tdr=1, bur=1, ssr=1, awr=1), 3000, 30000,
               proj_lines(("op ", "st ", "abort ", "bad-op")), OB.c08, [],
               proj_name="C08: store dump after every session", known_match=known_if_model_agrees("K2", OB.c08, pat_multi_dep_one_target), exhaustive=True),
     "C09": mk("C09", st(td=3, bu=2, buc=1, fail=2, bud=1, buf=1, pan=1, panr=1, hid=1), 3000, 30000,
               proj_lines(("op ", "ev read_end", "ev write_end", "ev require_end", "ev check_", "abort ", "bad-op")), OB.c09, [],
               proj_name="C09: stamps in *_end events and verdicts of every check event", exhaustive=True),
-    "C16": mk("C16", st(td=2, bu=2, bud=2, buc=1, hid=1, hidp=1, fail=1, buf=1, pan=1, panr=1, ovl=1, cyc=1, rol=1, ero=1, k1=1, k2=1, tdr=1, bur=1, buw=1, ssr=1), 3000, 30000,
+    "C16": mk("C16", st(td=2, bu=2, bud=2, buc=1, hid=1, hidp=1, fail=1, buf=1, pan=1, panr=1, ovl=1, cyc=1, rol=1, ero=1, k1=1, k2=1, tdr=1, bur=1, buw=1, ssr=1, awr=1), 3000, 30000,
               proj_lines(ALL_BUILD), lambda c, io: [], [], proj_name="C16: complete canonical event stream and outputs",
               replays=dict(quick=2, thorough=7)),
     "C17": mk("C17", st(td=2, bu=2, buc=1, pan=2, panr=1, fail=2, bud=1, buf=1, hid=1, ovl=1, cyc=1, rol=1, buw=1, ssr=1), 3000, 30000,
@@ -288,11 +288,11 @@ PROPS.update({
     "C18": mk("C18", st(fail=4, buf=2, td=1, bu=1), 3000, 30000,
               proj_lines(("op ", "errors ", "ev execute_start", "ev schedule_task", "out ", "abort ", "done", "bad-op")), OB.c18, [],
               proj_name="C18: dependency_check_errors, executions, scheduling, outputs"),
-    "C19": mk("C19", st(pan=3, pano=1, panr=2, ssr=1), 3000, 30000,
+    "C19": mk("C19", st(pan=3, pano=1, panr=2, ssr=1, awr=1), 3000, 30000,
               proj_lines(("op ", "out ", "abort ", "done", "skipped", "fs ", "cl ", "bad-op")), OB.c19, [],
               proj_name="C19: outcomes of all sessions after an abort", known_match=known_any(known_if_model_agrees("K9b", OB.c19, pat_hidden_after_abort),
                                     known_if_model_agrees("K6", OB.c19, pat_after_abort))),
-    "C20": mk("C20", st(rol=3, td=1, bu=1, bud=1, pan=2, pano=1, panr=1, hidp=1, tdr=1, bur=1, ssr=1, buw=2), 3000, 30000,
+    "C20": mk("C20", st(rol=3, td=1, bu=1, bud=1, pan=4, pano=2, panr=3, hidp=1, tdr=1, bur=1, ssr=1, buw=2, awr=3), 3000, 30000,
               proj_lines(("op ", "out ", "abort ", "done", "skipped", "cl ", "bad-op")),
               lambda c, io: OB.c20(c, io) + ([f"well-formed program aborted: {l}" for l in io if l in ("abort overlap", "abort hidden", "abort cyclic")]
                                              if c.meta.get("stream") in WELLFORMED_STREAMS else []), [],
